@@ -5,7 +5,7 @@
 From Coq Require Import String List NArith ZArith Bool.
 From RPFT Require Import Base.Sexp Base.PyStr Base.Result Base.ODict Gen.Tables Cell.Cell Row.Ty Row.Layout Row.RowParse
   Row.RowUnparse Row.FlowRow Row.RowFacts Row.ParseFold Row.Encodes Row.EncodesFacts Row.FlowHeaderFacts
-  Row.EncodesExamples.
+  Row.HeaderFacts Row.StarFacts Row.EncodesExamples.
 Import ListNotations.
 
 Theorem C09_tables_ok : row_tables_ok = true.
@@ -61,6 +61,74 @@ Theorem C09_fold_list : forall t cols, is_list_ty t = true -> forall l n,
     /\ (forall i, (i < n)%nat -> fold_slot (child_ty t) (sub_idx i cols) (nth i l ONone) = Ok (nth i l' ONone)).
 Proof. exact fold_list. Qed.
 Print Assumptions C09_fold_list.
+
+(* 3. `*` columns.  The implied length of a `*` prefix is max(1, lengths of the list-valued sibling
+      `*` columns) ... *)
+Theorem C09_star_len_spec : forall cells p,
+  star_len (star_lengths cells) p = max_from 1 (star_lens_of p cells).
+Proof. exact star_len_spec. Qed.
+Print Assumptions C09_star_len_spec.
+
+(* ... in any column order *)
+Theorem C09_group_len_order : forall p cs cs',
+  clean p = true -> Permutation.Permutation cs cs' -> group_len p cs = group_len p cs'.
+Proof. exact group_len_order. Qed.
+Print Assumptions C09_group_len_order.
+
+(* the columns a group of `p.*.g` cells expands to are a way of writing (Enc) the list of records
+   whose element i takes from every column its i-th value if it has one, the field default otherwise *)
+Theorem C09_star_columns_enc : forall sfields sh2f sf2h d scs vs,
+  NoDup (map f_name sfields) ->
+  NoDup (map (star_key sh2f) scs) ->
+  (forall sc, In sc scs -> field_ty sfields (star_key sh2f sc) <> None) ->
+  length vs = star_n scs -> (0 < star_n scs)%nat ->
+  (forall i, (i < star_n scs)%nat ->
+             exists fs, nth i vs (VStr []) = VModel fs /\ star_elem_spec sfields sh2f scs i fs) ->
+  Enc (TList (TModel sfields sh2f sf2h)) d (VList vs) (star_cols scs).
+Proof. exact star_columns_enc. Qed.
+Print Assumptions C09_star_columns_enc.
+
+(* a row of `p.*.g` cells parses to the row whose list field has group_len elements (max over the
+   sibling list-valued cells, at least 1), and a cell holding ONE value s gives EVERY element the
+   value s denotes *)
+Theorem C09_asterisk_broadcast : forall fields h2f f2h p cs sfields sh2f sf2h vs fs c s,
+  let scs := star_scs (group_len p cs) cs in
+  clean p = true -> Forall (fun c => clean (st_g c) = true) cs -> NoDup (map st_g cs) ->
+  NoDup (map f_name fields) ->
+  field_ty fields (remap_get h2f p) = Some (TList (TModel sfields sh2f sf2h)) ->
+  NoDup (map f_name sfields) -> NoDup (map (star_key sh2f) scs) ->
+  (forall sc, In sc scs -> field_ty sfields (star_key sh2f sc) <> None) ->
+  length vs = group_len p cs ->
+  (forall i, (i < group_len p cs)%nat ->
+             exists efs, nth i vs (VStr []) = VModel efs /\ star_elem_spec sfields sh2f scs i efs) ->
+  group_row_spec fields (remap_get h2f p) vs fs ->
+  In c cs -> cell_parse (st_txt c) = Str s ->
+  parse_row {| rm_ty := TModel fields h2f f2h; rm_ctx := None |} (star_data p cs) = Ok (VModel fs)
+  /\ group_len p cs = max_from 1 (list_lens cs)
+  /\ forall i f, (i < group_len p cs)%nat -> In f sfields -> f_name f = remap_get sh2f (st_g c) ->
+                 exists efs v, nth i vs (VStr []) = VModel efs /\ In (f_name f, v) efs /\ EncNv (f_ty f) v (Str s).
+Proof. exact asterisk_broadcast_row. Qed.
+Print Assumptions C09_asterisk_broadcast.
+
+(* longest list first, a shorter list later, then a single non-default value: three elements, all with t = k *)
+Example C09_asterisk_broadcast_nonvacuous :
+  star_data (S_ "p") gcells = [(S_ "p.*.a", S_ "x|y|z"); (S_ "p.*.b", S_ "u|v"); (S_ "p.*.t", S_ "k")]
+  /\ group_len (S_ "p") gcells = 3%nat
+  /\ parse_row {| rm_ty := TModel rgfields [] []; rm_ctx := None |} (star_data (S_ "p") gcells) = Ok (VModel gfs)
+  /\ forall i f, (i < group_len (S_ "p") gcells)%nat -> In f gfields -> f_name f = S_ "t" ->
+                 exists efs v, nth i gvs (VStr []) = VModel efs /\ In (f_name f, v) efs /\ EncNv (f_ty f) v (Str (S_ "k")).
+Proof. exact asterisk_broadcast_nonvacuous. Qed.
+Print Assumptions C09_asterisk_broadcast_nonvacuous.
+
+(* header syntax used above: list indices are decimal numerals; re-keying without context is the
+   identity on rows without duplicate headers *)
+Theorem C09_head_idx_print : forall i, head_idx (print_nat (S i)) = Some i.
+Proof. exact head_idx_print. Qed.
+Print Assumptions C09_head_idx_print.
+
+Theorem C09_rekey_none : forall cells, NoDup (map fst cells) -> rekey None cells = Ok cells.
+Proof. exact rekey_none. Qed.
+Print Assumptions C09_rekey_none.
 
 (* 4. short and long flow headers.  Domain of the finite proof: every entry of the regenerated
       tables cx_basic (short -> long) and cx_sw_table (row type -> main argument field). *)
